@@ -189,7 +189,7 @@ def refusal_unchanged(ops, outs):
 def old_roots_readable(t, history):
     from trie.binary import BinaryTrie
     for root, m in history:
-        snap = BinaryTrie(t.db, root)
+        snap = BinaryTrie(getattr(t, "caller_db", t.db), root)
         try:
             for k, v in m.items():
                 if snap.get(k) != v:
